@@ -85,6 +85,9 @@ func (c *Ctx) inModule(f *ssa.Function) bool {
 	if f.Pkg != nil {
 		return strings.HasPrefix(f.Pkg.Pkg.Path(), modulePath)
 	}
+	if obj := f.Object(); obj != nil && obj.Pkg() != nil {
+		return strings.HasPrefix(obj.Pkg().Path(), modulePath)
+	}
 	// methods of instantiated generics / synthetic wrappers: go by receiver / parent
 	if f.Parent() != nil {
 		return c.inModule(f.Parent())
